@@ -28,6 +28,7 @@ import (
 	"net"
 	neturl "net/url"
 	"os"
+	"reflect"
 	"strings"
 	"sync"
 	"sync/atomic"
@@ -110,7 +111,7 @@ var Check = &vrt.Check{
 
 var (
 	loginAPIs    = []string{"ctx", "bg", "timeout", "url", "urlparse", "dialer", "urlctx"}
-	deadlineAPIs = []string{"ctx", "timeout", "url", "dialer", "urlctx", "urlparse"}
+	deadlineAPIs = []string{"ctx", "timeout", "url", "dialer", "urlctx", "urlparse", "dialer-reused"}
 )
 
 func plan(seed int64, tier string) []vrt.Case {
@@ -189,6 +190,10 @@ func plan(seed int64, tier string) []vrt.Case {
 		add(params{Leg: "idle", API: []string{"ctx", "timeout", "url"}[i%3], Call: []byte("LA1B"), PW: []byte("x"), CallClass: "realistic", PWClass: "realistic",
 			NC2S: 600, NS2C: 600, Seed: int64(520 + i), PlanC2S: "pass", PlanS2C: "pass", Order: "both", DMs: 3000, IdleMS: ms})
 	}
+	// several stations logged in on one listener before any session is read
+	for i := 0; i < 12; i++ {
+		add(params{Leg: "overlap", Seed: int64(900 + i), NC2S: []int{0, 57, 4000}[i%3]})
+	}
 	// hostile servers
 	for i, kind := range hostileKinds {
 		apis := []string{"ctx", deadlineAPIs[1+i%(len(deadlineAPIs)-1)]}
@@ -198,6 +203,10 @@ func plan(seed int64, tier string) []vrt.Case {
 		for _, api := range apis {
 			add(params{Leg: "deadline", API: api, Kind: kind, DMs: 300, Call: []byte("LA5NTA"), PW: []byte("secret")})
 		}
+	}
+
+	for _, kind := range []string{"silent", "prompt-then-silence", "partial-prompt"} {
+		add(params{Leg: "deadline", API: "dialer-reused", Kind: kind, DMs: 300, Call: []byte("LA5NTA"), PW: []byte("secret")})
 	}
 
 	// ---- PRNG volume ----
@@ -274,6 +283,8 @@ func run(c vrt.Case) vrt.Obs {
 	vrt.Params(c, &p)
 	var o vrt.Obs
 	switch p.Leg {
+	case "overlap":
+		runOverlap(&o, p)
 	case "deadline":
 		runDeadline(&o, p)
 	default:
@@ -332,13 +343,35 @@ func prepDial(api, addr, call, pw string, timeout time.Duration) (do func() (net
 		return func() (net.Conn, error) { return transport.DialURL(u) }, fallback // through the registry → telnet.DefaultDialer
 	case "dialer":
 		u, _ := mkURL("url", addr, call, pw, timeout, false)
-		return func() (net.Conn, error) { return telnet.Dialer{Timeout: timeout}.DialURL(u) }, false
+		return func() (net.Conn, error) { d := telnet.Dialer{Timeout: timeout}; return d.DialURL(u) }, false
+	case "dialer-reused":
+		// one Dialer value used for several dials (as telnet.DefaultDialer is): an earlier dial with a
+		// dial_timeout parameter (to a server that hangs up at once) and one with an unparsable
+		// parameter must not change what a later dial without the parameter does
+		u, _ := mkURL("url", addr, call, pw, timeout, false)
+		return func() (net.Conn, error) {
+			d := telnet.Dialer{Timeout: timeout}
+			if h2, err := startHostile("immediate-close"); err == nil {
+				u1, _ := mkURL("url", h2.ln.Addr().String(), call, pw, time.Minute, true)
+				if c, err := d.DialURL(u1); err == nil {
+					c.Close()
+				}
+				u2, _ := mkURL("url", h2.ln.Addr().String(), call, pw, time.Minute, true)
+				u2.Params.Set("dial_timeout", "soon")
+				if c, err := d.DialURL(u2); err == nil {
+					c.Close()
+				}
+				h2.close()
+			}
+			return d.DialURL(u)
+		}, false
 	case "urlctx":
 		u, _ := mkURL("url", addr, call, pw, timeout, false)
 		return func() (net.Conn, error) {
 			ctx, cancel := context.WithDeadline(context.Background(), time.Now().Add(timeout))
 			defer cancel()
-			return telnet.Dialer{}.DialURLContext(ctx, u)
+			var d telnet.Dialer
+			return d.DialURLContext(ctx, u)
 		}, false
 	}
 	panic("unknown api " + api)
@@ -355,14 +388,24 @@ func closeWrite(c net.Conn) error {
 		if cw, ok := c.(interface{ CloseWrite() error }); ok {
 			return cw.CloseWrite()
 		}
-		switch t := c.(type) {
-		case *telnet.Conn:
-			c = t.Conn
-		case telnet.Conn:
-			c = t.Conn
-		default:
+		// unwrap the package's connection type (value or pointer, whichever the package hands out):
+		// a struct with an embedded net.Conn called Conn
+		v := reflect.ValueOf(c)
+		if v.Kind() == reflect.Ptr {
+			v = v.Elem()
+		}
+		if v.Kind() != reflect.Struct {
 			return fmt.Errorf("no CloseWrite on %T", c)
 		}
+		f := v.FieldByName("Conn")
+		inner, ok := net.Conn(nil), false
+		if f.IsValid() && f.CanInterface() {
+			inner, ok = f.Interface().(net.Conn)
+		}
+		if !ok || inner == nil {
+			return fmt.Errorf("no CloseWrite on %T", c)
+		}
+		c = inner
 	}
 	return errors.New("no CloseWrite")
 }
